@@ -282,6 +282,39 @@ pub fn put_auth_padded(out: &mut Vec<u8>, alg: u16, key: &[u8], nonce: &[u8], pl
     true
 }
 
+
+/// Append an authenticator field from ready-made nonce and tag||ciphertext bytes.
+pub fn put_auth_raw(out: &mut Vec<u8>, nonce: &[u8], ct: &[u8], extra_pad: usize) {
+    let mut body = Vec::with_capacity(4 + up4(nonce.len()) + up4(ct.len()) + extra_pad);
+    body.extend_from_slice(&(nonce.len() as u16).to_be_bytes());
+    body.extend_from_slice(&(ct.len() as u16).to_be_bytes());
+    body.extend_from_slice(nonce);
+    body.resize(4 + up4(nonce.len()), 0);
+    body.extend_from_slice(ct);
+    let l = body.len();
+    body.resize(up4(l) + extra_pad, 0);
+    out.extend_from_slice(&T_AUTH.to_be_bytes());
+    out.extend_from_slice(&((4 + body.len()) as u16).to_be_bytes());
+    out.extend_from_slice(&body);
+}
+
+/// RFC 8915: every NTS authenticator field of a packet has to verify over all bytes that precede
+/// it. Returns (authenticator fields visible at top level, how many of them verify under the key).
+pub fn authenticators(bytes: &[u8], alg: u16, key: &[u8]) -> (usize, usize) {
+    let w = walk(bytes);
+    let mut n = 0;
+    let mut ok = 0;
+    for f in w.fields.iter().filter(|f| f.type_id == T_AUTH) {
+        n += 1;
+        if let Some(a) = auth_layout(bytes, f) {
+            if siv_decrypt(alg, key, &bytes[a.nonce.clone()], &bytes[..a.ef_off], &bytes[a.ct.clone()]).is_some() {
+                ok += 1;
+            }
+        }
+    }
+    (n, ok)
+}
+
 pub fn v4_client_header(poll: u8, transmit: [u8; 8]) -> Vec<u8> {
     let mut h = vec![0u8; HEADER];
     h[0] = (4 << 3) | 3;
